@@ -32,6 +32,23 @@ def clone(n):
     return copy.deepcopy(n)
 
 
+def _from_here(fn, st):
+    """ids of the nodes of fn that come at or after statement st in source
+    order (structural, independent of line numbers, which inlined code
+    carries over from elsewhere)"""
+    out, on = set(), [False]
+
+    def go(n):
+        if n is st:
+            on[0] = True
+        if on[0]:
+            out.add(id(n))
+        for c in ast.iter_child_nodes(n):
+            go(c)
+    go(fn)
+    return out
+
+
 def _doc(st):
     return isinstance(st, ast.Expr) and isinstance(
         st.value, ast.Constant) and isinstance(st.value.value, str)
@@ -1362,9 +1379,10 @@ def literal_iterables(fn):
                       if isinstance(n, ast.Name)}
         in_loop_ = any(isinstance(lp, (ast.For, ast.While)) and any(
             x is st for x in ast.walk(lp)) for lp in ast.walk(fn))
+        here = _from_here(fn, st)
         rebound = {n.id for n in ast.walk(fn) if isinstance(n, ast.Name)
                    and isinstance(n.ctx, (ast.Store, ast.Del))
-                   and (in_loop_ or getattr(n, "lineno", 0) >= st.lineno)}
+                   and (in_loop_ or id(n) in here)}
         if (item_names - {p_.targets[0].id for p_ in pre}) & rebound:
             continue
         for ld in loads:
@@ -2600,10 +2618,15 @@ def class_constants(tree):
         consts = {}
         for st in cls.body:
             if isinstance(st, ast.Assign) and len(st.targets) == 1 and \
-                    isinstance(st.targets[0], ast.Name) and \
-                    st.targets[0].id.startswith("_") and isinstance(
+                    isinstance(st.targets[0], ast.Name) and (
+                        st.targets[0].id.startswith("_") or isinstance(
+                            st.value, ast.Tuple)) and isinstance(
                         st.value, (ast.Tuple, ast.List)) and \
-                    _literal_coll(st.value):
+                    _literal_coll(st.value) and sum(
+                        1 for s_ in cls.body for n in ast.walk(s_)
+                        if isinstance(n, ast.Name) and isinstance(
+                            n.ctx, ast.Store)
+                        and n.id == st.targets[0].id) == 1:
                 consts[st.targets[0].id] = st.value
         if not consts:
             continue
@@ -2881,7 +2904,7 @@ def inline_value_objects(tree):
                         isinstance(e2, ast.Name) and not in_loop and \
                         not any(isinstance(n, ast.Name) and n.id == e2.id
                                 and isinstance(n.ctx, (ast.Store, ast.Del))
-                                and getattr(n, "lineno", 0) >= st.lineno
+                                and id(n) in _from_here(fn, st)
                                 for n in ast.walk(fn)):
                     direct[f] = e2.id
                     continue
@@ -3746,9 +3769,10 @@ def indexed_tuples(fn):
                 # loop that could run an earlier store again)
                 enames = {e.id for e in st.value.elts
                           if isinstance(e, ast.Name)}
+                here = _from_here(fn, st)
                 late = any(isinstance(n, ast.Name) and n.id in enames
                            and isinstance(n.ctx, (ast.Store, ast.Del))
-                           and getattr(n, "lineno", 0) >= st.lineno
+                           and id(n) in here
                            for n in ast.walk(fn))
                 in_loop = isinstance(par, (ast.For, ast.While)) or any(
                     isinstance(lp, (ast.For, ast.While)) and any(
@@ -5814,9 +5838,10 @@ def dict_key_loops(fn):
                 # the values keep their meaning until the loops run
                 vnames = {n.id for v in st.value.values
                           for n in ast.walk(v) if isinstance(n, ast.Name)}
+                here = _from_here(fn, st)
                 if any(isinstance(n, ast.Name) and n.id in vnames
                        and isinstance(n.ctx, (ast.Store, ast.Del))
-                       and getattr(n, "lineno", 0) >= st.lineno
+                       and id(n) in here
                        for n in ast.walk(fn)):
                     continue
                 vn = f"{D}__v"
@@ -5836,6 +5861,73 @@ def dict_key_loops(fn):
                         ast.Name(id=lp.target.id, ctx=ast.Store()),
                         ast.Name(id=vn, ctx=ast.Store())],
                         ctx=ast.Store()), lp.target)
+                blk.remove(st)
+                if not blk:
+                    blk.append(ast.copy_location(ast.Pass(), st))
+                done = True
+    if done:
+        ast.fix_missing_locations(fn)
+    return done
+
+
+def local_partials(fn):
+    """`p = functools.partial(f, a, k=b)` (bound once; f, a, b plain names,
+    attribute chains or literals that are not re-bound afterwards; p only
+    ever called) -> `f(a, <args>, k=b)` at the calls"""
+    def plain(e):
+        return isinstance(e, (ast.Name, ast.Constant)) or (
+            isinstance(e, ast.Attribute) and plain(e.value))
+    done = False
+    for par in [fn] + list(_walk_own(fn)):
+        for fld in ("body", "orelse", "finalbody"):
+            blk = getattr(par, fld, None)
+            if not isinstance(blk, list):
+                continue
+            for st in list(blk):
+                if not (isinstance(st, ast.Assign) and len(st.targets) == 1
+                        and isinstance(st.targets[0], ast.Name)
+                        and isinstance(st.value, ast.Call)
+                        and norm(st.value.func) in ("functools.partial",
+                                                    "partial")
+                        and st.value.args and all(
+                            plain(a) for a in st.value.args) and all(
+                            k.arg is not None and plain(k.value)
+                            for k in st.value.keywords)):
+                    continue
+                p_ = st.targets[0].id
+                nodes = [n for n in ast.walk(fn) if isinstance(n, ast.Name)
+                         and n.id == p_]
+                if sum(1 for n in nodes if not isinstance(
+                        n.ctx, ast.Load)) != 1:
+                    continue
+                loads = [n for n in nodes if isinstance(n.ctx, ast.Load)]
+                calls = [c for c in ast.walk(fn) if isinstance(c, ast.Call)
+                         and c.func in loads]
+                if not loads or len(calls) != len(loads):
+                    continue
+                used = {n.id for a in list(st.value.args) + [
+                    k.value for k in st.value.keywords]
+                    for n in ast.walk(a) if isinstance(n, ast.Name)}
+                here = _from_here(fn, st)
+                if any(isinstance(n, ast.Name) and n.id in used
+                       and isinstance(n.ctx, (ast.Store, ast.Del))
+                       and id(n) in here
+                       for n in ast.walk(fn)):
+                    continue
+                if any(isinstance(lp, (ast.For, ast.While)) and any(
+                        x is st for x in ast.walk(lp))
+                        for lp in ast.walk(fn)):
+                    continue
+                given = {k.arg for k in st.value.keywords}
+                if any(k.arg is None or k.arg in given
+                       for c in calls for k in c.keywords):
+                    continue
+                for c in calls:
+                    c.func = ast.copy_location(clone(st.value.args[0]),
+                                               c.func)
+                    c.args = [clone(a) for a in st.value.args[1:]] + c.args
+                    c.keywords = [clone(k) for k in st.value.keywords] + \
+                        c.keywords
                 blk.remove(st)
                 if not blk:
                     blk.append(ast.copy_location(ast.Pass(), st))
